@@ -7,7 +7,7 @@
    target duration with the write index, the number of "part duration changed" reports, and
    a few parsed playlists). *)
 From Coq Require Import List ZArith Bool.
-From GoHls Require Import Lib.ZLib Model.PartDur.
+From GoHls Require Import Lib.ZLib Model.PartDur Proofs.PartDurArith.
 Import ListNotations.
 Local Open Scope Z_scope.
 
@@ -33,7 +33,9 @@ Inductive pcase :=
 | CD2T (d R : Z) (r : option Z)
 | CCompat (p sd : Z) (r : option bool)
 | CFind (pm : Z) (sds : list Z) (r : option Z)
-| CRun (c : cfg) (ws : list write) (o : robs).
+| CRun (c : cfg) (ws : list write) (o : robs)
+| CSide (c : cfg) (T : Z) (side : bool).   (* the harness's own evaluation of c19_side, by which it
+                                             classifies the irregularities it observes *)
 
 (* writes from a first dts and (delta to the next dts, flag code): 0 plain, 1 randomAccess,
    3 randomAccess + paramsChanged *)
@@ -114,7 +116,8 @@ Definition seg_durs_eqb (a : option (list part)) (b : option (list Z)) : bool :=
   end.
 
 (* 1 pure result, 2 published, 3 next parts, 4 adjusted/freeze, 5 part target trace,
-   6 error count, 7 retained segments, 8 playlist view, 9 the model panicked / no state *)
+   6 error count, 7 retained segments, 8 playlist view, 9 the model panicked / no state,
+   10 the harness's side-condition verdict differs from [sideb] *)
 Definition check_case (cs : pcase) : list nat :=
   match cs with
   | CMulDiv v m d r => if agree Z.eqb (multiplyAndDivide v m d) r then [] else [1%nat]
@@ -122,6 +125,11 @@ Definition check_case (cs : pcase) : list nat :=
   | CD2T d R r => if agree Z.eqb (durationToTimestamp d R) r then [] else [1%nat]
   | CCompat p sd r => if agree Bool.eqb (partDurationIsCompatible p sd) r then [] else [1%nat]
   | CFind pm sds r => if agree Z.eqb (findCompatiblePartDuration pm sds) r then [] else [1%nat]
+  | CSide c T b =>
+      match findCompatiblePartDuration (partMinDuration c) [tsd T (clockRate c)] with
+      | POk adj => if Bool.eqb (sideb adj T (clockRate c)) b then [] else [10%nat]
+      | _ => [9%nat]
+      end
   | CRun c ws o =>
       match scan c init_state ws with
       | None => [9%nat]
